@@ -484,3 +484,18 @@ def ord_conds(outs):
 def z(b):
     import z3
     return z3.BoolVal(b) if isinstance(b, bool) else b
+
+
+def canary_verdict(R, sv, pair, res, base_hyp, sides):
+    """a canary (deliberately wrong specification) must be refuted (sat).  If it is not, the obligation family is
+    vacuous: legitimate only when the operation cannot be carried out at all for this unit pair in the decimal
+    back-end (the side conditions - representable intermediates - are unsatisfiable while the path itself is feasible);
+    then it is recorded as such, otherwise it is inconclusive."""
+    if res != "unsat":
+        return
+    r1, _ = sv.check(base_hyp)
+    r2, _ = sv.check(base_hyp + sides) if sides else (r1, None)
+    if r1 == "sat" and r2 == "unsat":
+        R.notes.append("%s: every execution overflows the decimal type for this unit pair (scale ratio not representable); tolerance obligations hold vacuously, panic-freedom is C18's subject" % pair)
+        return
+    R.inconclusive.append("%s: canary with a wrong specification was not refuted (vacuous obligations)" % pair)
